@@ -421,6 +421,7 @@ def Expr.lineFreeE : Expr → Prop
   | .asrt c bd _ _ b a => c.lineFreeE ∧ bd.lineFreeE ∧ lineFree b ∧ lineFree a
   | .sel e _ _ _ b a => e.lineFreeE ∧ lineFree b ∧ lineFree a
   | .selOr e _ _ _ d _ _ b a => e.lineFreeE ∧ d.lineFreeE ∧ lineFree b ∧ lineFree a
+  | .lam _ _ _ _ body b a => body.lineFreeE ∧ lineFree b ∧ lineFree a
 def allLineFree : List Expr → Prop
   | [] => True
   | e :: rest => e.lineFreeE ∧ allLineFree rest
@@ -482,6 +483,7 @@ theorem lineFreeE_after {e : Expr} (h : e.lineFreeE) : lineFree e.after := by
   | asrt c bd x y b a => exact h.2.2.2
   | sel e ats g ab b a => exact h.2.2
   | selOr e ats g ab d dg db b a => exact h.2.2.2
+  | lam n c g k bd b a => exact h.2.2
 
 mutual
 theorem lexOut_noLine : (e : Expr) → e.ok → e.lineFreeE → ∀ na, noLineL (e.lexOut na)
@@ -563,6 +565,11 @@ theorem lexOut_noLine : (e : Expr) → e.ok → e.lineFreeE → ∀ na, noLineL 
     exact noLineL_append.mpr ⟨noLineL_append.mpr ⟨noLineL_append.mpr ⟨noLineL_append.mpr ⟨noLineL_append.mpr
       ⟨noLineL_cm hok.2.2.2.2.2.2.1 hf.2.2.1, lexOut_noLine e hok.1 hf.1 false⟩, hattr⟩, noLineL_tok _⟩,
       lexOut_noLine d hok.2.2.2.2.1 hf.2.1 false⟩, noLineL_ite _ noLineL_nil (noLineL_cm hok.2.2.2.2.2.2.2 hf.2.2.2)⟩
+  | .lam n bcc g k body b a, hok, hf, na => by
+    simp only [Expr.lexOut]
+    refine noLineL_append.mpr ⟨noLineL_append.mpr ⟨noLineL_append.mpr ⟨noLineL_cm hok.2.2.2.1 hf.2.1, ?_⟩,
+      lexOut_noLine body hok.2.2.1 hf.1 false⟩, noLineL_ite _ noLineL_nil (noLineL_cm hok.2.2.2.2 hf.2.2)⟩
+    intro s hs; simp at hs
 theorem lexOutAll_noLine : (es : List Expr) → allOk es → allLineFree es → noLineL (lexOutAll es)
   | [], _, _ => noLineL_nil
   | e :: rest, hok, hf => by
@@ -624,6 +631,8 @@ def Expr.mlSafe : Expr → Prop
   | .sel e _ _ _ _ _ => e.mlSafe ∧ e.notBinding = true ∧ e.after = []
   | .selOr e _ _ _ d _ _ _ _ =>
     e.mlSafe ∧ d.mlSafe ∧ e.notBinding = true ∧ d.notBinding = true ∧ e.after = [] ∧ d.after = []
+  -- the body of a lambda carries no trailing trivia of its own
+  | .lam _ _ _ _ body _ _ => body.mlSafe ∧ body.notBinding = true ∧ body.after = []
 def allMlSafe : List Expr → Prop
   | [] => True
   | e :: rest => e.mlSafe ∧ allMlSafe rest
@@ -805,6 +814,7 @@ theorem rebuildAP_after_nil {e : Expr} (h : e.after = []) (i : Nat) (b : Bool) :
   | asrt c bd x y bf af => simp only [Expr.after] at h; subst h; simp [Expr.rebuildAP]
   | sel e ats g ab bf af => simp only [Expr.after] at h; subst h; simp [Expr.rebuildAP]
   | selOr e ats g ab d dg db bf af => simp only [Expr.after] at h; subst h; simp [Expr.rebuildAP]
+  | lam n c g k bd bf af => simp only [Expr.after] at h; subst h; simp [Expr.rebuildAP]
 
 /-- the argument of a call / the body of a `with` is rendered last and carries no trailing trivia -/
 def Expr.tailOk : Expr → Prop
@@ -812,6 +822,7 @@ def Expr.tailOk : Expr → Prop
   | .wth _ x _ _ _ _ _ => x.after = [] ∧ x.notBinding = true ∧ x.tailOk
   | .asrt _ x _ _ _ _ => x.after = [] ∧ x.notBinding = true ∧ x.tailOk
   | .selOr _ _ _ _ x _ _ _ _ => x.after = [] ∧ x.notBinding = true ∧ x.tailOk
+  | .lam _ _ _ _ x _ _ => x.after = [] ∧ x.notBinding = true ∧ x.tailOk
   | _ => True
 
 theorem mlSafe_tailOk : (e : Expr) → e.mlSafe → e.tailOk
@@ -825,6 +836,7 @@ theorem mlSafe_tailOk : (e : Expr) → e.mlSafe → e.tailOk
   | .asrt _ x _ _ _ _, h => ⟨h.2.2.2.2.2, h.2.2.2.1, mlSafe_tailOk x h.2.1⟩
   | .sel .., _ => trivial
   | .selOr _ _ _ _ x _ _ _ _, h => ⟨h.2.2.2.2.2, h.2.2.2.1, mlSafe_tailOk x h.2.1⟩
+  | .lam _ _ _ _ x _ _, h => ⟨h.2.2, h.2.1, mlSafe_tailOk x h.1⟩
 
 theorem attrP_endsTok : ∀ (attrs : List Text), attrs ≠ [] → (∀ x ∈ attrs, solidT x) →
     ∃ t, EndsTok (attrP attrs) t ∧ solidT t
@@ -922,6 +934,14 @@ theorem noAfter_ends_tok : (e : Expr) → e.ok → e.tailOk → e.notBinding = t
     simp only [Expr.rebuildAP, addTriviaP, if_true, trailP_nil]
     exact endsTok_append_nil (endsTok_append _ (endsTok_append _ ht))
 
+  | .lam n bcc g k body bf af, hok, hml, _, i, b => by
+    obtain ⟨hxa, hxnb, hxm⟩ := hml
+    obtain ⟨t, ht, hst⟩ := noAfter_ends_tok body hok.2.2.1 hxm hxnb i (k == 0)
+    rw [← rebuildAP_after_nil hxa] at ht
+    refine ⟨t, ?_, hst⟩
+    simp only [Expr.rebuildAP, addTriviaP, if_true, trailP_nil]
+    exact endsTok_append_nil (endsTok_append _ (endsTok_append _ ht))
+
 /-- the trailing trivia are rendered last -/
 theorem rebuildAP_split {e : Expr} (hna : e.isAsrtE = false) (hnb : e.notBinding = true) (i : Nat) (b : Bool) :
     e.rebuildAP false i b = e.rebuildAP true i b ++ trailP e.after i := by
@@ -945,6 +965,7 @@ theorem rebuildAP_split {e : Expr} (hna : e.isAsrtE = false) (hnb : e.notBinding
   | wth e bd c g s bf af => simp [Expr.rebuildAP, addTriviaP, trailP_nil, Expr.after]
   | sel e ats g ab bf af => simp [Expr.rebuildAP, addTriviaP, trailP_nil, Expr.after]
   | selOr e ats g ab d dg db bf af => simp [Expr.rebuildAP, addTriviaP, trailP_nil, Expr.after]
+  | lam n c g k bd bf af => simp [Expr.rebuildAP, addTriviaP, trailP_nil, Expr.after]
   | asrt c bd x y bf af => cases hna
 
 /-- an expression without trailing trivia ends closed -/
@@ -983,6 +1004,7 @@ theorem rebuildAP_open {e : Expr} (hok : e.ok) (hml : e.mlSafe) (hnb : e.notBind
     | wth => cases hA
     | sel => cases hA
     | selOr => cases hA
+    | lam => cases hA
 
 /-- the comments after the function: safe after a closed state; open afterwards only if the last one
     is a line comment -/
@@ -1350,6 +1372,16 @@ theorem rebuildAP_safe : (e : Expr) → e.ok → e.mlSafe → ∀ (na : Bool) (i
     simp only [(tok_then _ _).1, (ws_then _ _).1]
     rw [safeGo_append, rebuildAP_safe d hd hdm false _ true, closed_of_after_nil hd hdm hdnb hda _ true, Bool.true_and]
     exact ht
+  | .lam name bcc g k body before after, hok, hml, na, i, b => by
+    obtain ⟨_, _, hbd, hb, ha⟩ := hok
+    obtain ⟨hbm, hbnb, hba⟩ := hml
+    have ht := (trailP_safe (ite_nil_ok na ha) i).1
+    simp only [Expr.rebuildAP, addTriviaP, List.append_assoc]
+    rw [(lines_then i hb _).1, (indentP_scan i b _).1]
+    simp only [List.cons_append, List.nil_append, (tok_then _ _).1, (ws_then _ _).1]
+    rw [safeGo_append, rebuildAP_safe body hbd hbm false i (k == 0), closed_of_after_nil hbd hbm hbnb hba i (k == 0),
+      Bool.true_and]
+    exact ht
 theorem rebuildAllP_safe : (es : List Expr) → allOk es → allMlSafe es → ∀ (i : Nat) (b : Bool),
     ∀ x ∈ rebuildAllP es i b, safeGo false x = true
   | [], _, _, _, _, x, hx => by cases hx
@@ -1369,6 +1401,7 @@ theorem previewP_safe : (e : Expr) → e.ok → e.mlSafe → ∀ (i : Nat) (p : 
   | .asrt .., _, _, i, p, h => by simp [Expr.previewP] at h
   | .sel .., _, _, i, p, h => by simp [Expr.previewP] at h
   | .selOr .., _, _, i, p, h => by simp [Expr.previewP] at h
+  | .lam .., _, _, i, p, h => by simp [Expr.previewP] at h
   | .list value ml inner before after, hok, hml, i, p, h => by
     obtain ⟨hv, hin, hb, ha⟩ := hok
     refine ⟨[']'], ?_, solidT_lit ']' (by decide), ?_⟩
@@ -1510,6 +1543,7 @@ def Cst.noLineC : Cst → Bool
   | .kw _ c1 _ h c2 _ c3 _ b => gcNoLine c1 && h.noLineC && gcNoLine c2 && gcNoLine c3 && b.noLineC
   | .sel e c1 _ _ _ => e.noLineC && gcNoLine c1
   | .selOr e c1 _ _ _ c2 _ _ d => e.noLineC && gcNoLine c1 && gcNoLine c2 && d.noLineC
+  | .lam _ c1 _ c2 _ b => gcNoLine c1 && gcNoLine c2 && b.noLineC
 def Items.noLineI : Items → Bool
   | .nil => true
   | .cmt _ t rest => !isLineCmt t && rest.noLineI
@@ -1625,6 +1659,14 @@ theorem cst_noLine_of_noNL : (c : Cst) → c.wf = true → containsNL c.flatten 
     have a2 := containsNL_append_false a1.2
     simp only [Cst.noLineC, gcNoLine, List.all_nil, Bool.and_true, Bool.and_eq_true]
     exact ⟨cst_noLine_of_noNL e hew a1.1, cst_noLine_of_noNL d hdw a2.2⟩
+  | .lam n c1 g1 c2 g2 b, hwf, hn => by
+    simp only [Cst.wf, Bool.and_eq_true, List.isEmpty_iff] at hwf
+    obtain ⟨⟨⟨⟨⟨_, hc1⟩, _⟩, hc2⟩, _⟩, hbw⟩ := hwf
+    subst hc1; subst hc2
+    have h1 : containsNL ((n ++ (g1 ++ ([':'] ++ g2))) ++ b.flatten) = false := by
+      simpa [Cst.flatten, flattenGC, List.append_assoc] using hn
+    simp only [Cst.noLineC, gcNoLine, List.all_nil, Bool.true_and]
+    exact cst_noLine_of_noNL b hbw (containsNL_append_false h1).2
 theorem items_noLine_of_noNL : (its : Items) → ∀ (m : Mode) (cg : Text), its.wf m cg = true → m ≠ .file →
     containsNL (its.flatten ++ cg) = false → its.noLineI = true
   | .nil, _, _, _, _, _ => rfl
@@ -1718,6 +1760,7 @@ theorem lineFreeE_setBefore {e : Expr} (h : e.lineFreeE) {b : List Trivia} (hb :
   | asrt c bd x y b' a => exact ⟨h.1, h.2.1, hb, h.2.2.2⟩
   | sel e ats g ab b' a => exact ⟨h.1, hb, h.2.2⟩
   | selOr e ats g ab d dg db b' a => exact ⟨h.1, h.2.1, hb, h.2.2.2⟩
+  | lam n c g k bd b' a => exact ⟨h.1, hb, h.2.2⟩
 
 theorem lineFreeE_addAfter {e : Expr} (h : e.lineFreeE) {a : List Trivia} (ha : lineFree a) : (e.addAfter a).lineFreeE := by
   have haa := lineFree_append.mpr ⟨lineFreeE_after h, ha⟩
@@ -1732,6 +1775,7 @@ theorem lineFreeE_addAfter {e : Expr} (h : e.lineFreeE) {a : List Trivia} (ha : 
   | asrt c bd x y b a' => exact ⟨h.1, h.2.1, h.2.2.1, haa⟩
   | sel e ats g ab b a' => exact ⟨h.1, h.2.1, haa⟩
   | selOr e ats g ab d dg db b a' => exact ⟨h.1, h.2.1, h.2.2.1, haa⟩
+  | lam n c g k bd b a' => exact ⟨h.1, h.2.1, haa⟩
 
 theorem mlSafe_setBefore {e : Expr} (h : e.mlSafe) (b : List Trivia) : (e.setBefore b).mlSafe := by
   cases e <;> exact h
@@ -1815,6 +1859,7 @@ theorem lineFreeE_before {e : Expr} (h : e.lineFreeE) : lineFree e.before := by
   | asrt c bd x y b a => exact h.2.2.1
   | sel e ats g ab b a => exact h.2.1
   | selOr e ats g ab d dg db b a => exact h.2.2.1
+  | lam n c g k bd b a => exact h.2.1
 
 theorem binding_inv {n : Text} {c1 c2 c3 : GC} {g1 g2 g3 : Text} {ve b : Expr} {before : List Trivia}
     (h1 : gcOk c1 g1 = true) (h2 : gcOk c2 g2 = true) (h3 : gcOk c3 g3 = true)
@@ -2234,6 +2279,32 @@ theorem cst_parse_inv : (c : Cst) → c.wf = true → ∀ (e : Expr), c.parse = 
     refine ⟨⟨hie.1, hid.1, hie.2.1, hid.2.1, hea, hda⟩, rfl, fun hnl => ?_⟩
     simp only [Cst.noLineC, Bool.and_eq_true] at hnl
     exact ⟨hie.2.2 hnl.1.1.1, hid.2.2 hnl.2, lineFree_nil, lineFree_nil⟩
+  | .lam n c1 g1 c2 g2 b, hwf, ex, hp => by
+    simp only [Cst.wf, Bool.and_eq_true, List.isEmpty_iff] at hwf
+    obtain ⟨⟨⟨⟨⟨_, hc1⟩, _⟩, hc2⟩, _⟩, hbw⟩ := hwf
+    subst hc1; subst hc2
+    obtain ⟨be, hpb, _, hbb, hba, _⟩ := cst_parse_spec false b hbw (fun h => by cases h)
+    have hib := cst_parse_inv b hbw be hpb
+    simp only [Cst.parse, hpb] at hp
+    injection hp with hp; subst hp
+    have hlf : ∀ (k : Nat), lineFree (List.replicate k Trivia.emptyLine) := by
+      intro k c hc
+      simp [List.mem_replicate] at hc
+    have hbody : ∀ (ts : List Trivia), lineFree ts →
+        (if ts.isEmpty then be else be.setBefore (ts ++ be.before)).mlSafe ∧
+        (if ts.isEmpty then be else be.setBefore (ts ++ be.before)).notBinding = true ∧
+        (if ts.isEmpty then be else be.setBefore (ts ++ be.before)).after = [] ∧
+        (b.noLineC = true → (if ts.isEmpty then be else be.setBefore (ts ++ be.before)).lineFreeE) := by
+      intro ts hts
+      split
+      · exact ⟨hib.1, hib.2.1, hba, hib.2.2⟩
+      · exact ⟨mlSafe_setBefore hib.1 _, by rw [notBinding_setBefore]; exact hib.2.1, by rw [after_setBefore]; exact hba,
+          fun hnl => lineFreeE_setBefore (hib.2.2 hnl) (lineFree_append.mpr ⟨hts, lineFreeE_before (hib.2.2 hnl)⟩)⟩
+    have hb' := hbody _ (hlf (g2.count '\n' - 1))
+    unfold lamFromCst
+    refine ⟨⟨hb'.1, hb'.2.1, hb'.2.2.1⟩, rfl, fun hnl => ?_⟩
+    simp only [Cst.noLineC, Bool.and_eq_true] at hnl
+    exact ⟨hb'.2.2.2 hnl.2, lineFree_nil, lineFree_nil⟩
 theorem items_parse_inv : (its : Items) → ∀ (m : Mode) (cg : Text) (st st' : SeqSt), its.wf m cg = true →
     its.parseSeq m st = .ok st' → allMlSafe st.items →
     allMlSafe st'.items ∧ (its.noLineI = true → allLineFree st.items → lineFree st.before →
